@@ -76,6 +76,10 @@ class C06(Prop):
         for i in range(n):
             g = Gen6(random.Random(rng.getrandbits(48)), full=True, depth=rng.choice([1, 2, 2, 3]),
                      carried=rng.choice([0.0, 0.0, 0.5]))
+            if i % 4 == 1:
+                g.nested = 0.7  # nests of rotation candidates: inner head setups read values of the enclosing loop bodies
+                g.accs = g.accs[:1] if rng.random() < 0.7 else g.accs
+                g.scope_accs = [g.accs]
             if i % 4 == 3:
                 g.ifinput = 0.3  # a conditional computing from a region-local and an outer value is itself a setup input
             yield {"kind": "overlap", "src": g.program(), "xseed": rng.getrandbits(32)}
